@@ -31,6 +31,13 @@ uninstrumented library** (`/venv/bin/python`, plain `import athlib`; the real
 concrete runs are never the deciding step; where only they could decide, the
 property is declared not applicable. Finite sets of constants (table cells,
 table keys, bundled files) are compared exhaustively and reported as such.
+Two kinds of report do not come from a solver verdict and are labelled so: a
+clause checked concretely along the history that rebuilds a high-jump witness
+(`witness-history`, C02/C03/C08), and an answer of the long-lived witness
+process that a fresh process does not give (`answer-depends-on-earlier-calls`
+and history-prefixed clause scripts, §2.10 (ii)); both are replayed before
+being printed, and every property also has solver-decided clauses for the
+same ground where that was affordable (§2.10 (i), (iii)).
 
 | id  | claimed | what is symbolic | engine / theory | oracle | main bound (quick / thorough) |
 |-----|---------|------------------|-----------------|--------|------------|
